@@ -69,7 +69,9 @@ func loadBM(b []byte) (bm *bondmachine.Bondmachine, err error) {
 	if err := json.Unmarshal(b, &j); err != nil {
 		return nil, err
 	}
-	return (&j).Dejsoner(), nil
+	bm = (&j).Dejsoner()
+	bm.Init() // every CLI calls Init right after Dejsoner ("an idempotent set of operations to ensure consistency")
+	return bm, nil
 }
 
 func saveMachine(m *procbuilder.Machine) (b []byte, err error) {
